@@ -63,7 +63,7 @@ Print Assumptions C09_code_tie_explicit.
 
 (* ---- the tie to the code: src/polyseed.c as TRANSLATED on this run (Gen/CApi.v) ---- *)
 From Coq Require Import String.
-From PS Require Import Base GFDefs PackDefs StoreDefs MiscDefs StrDefs LangDefs ApiDefs SpecDefs SpecApi GFProofs PackProofs StoreProofs RefineProofs RoundTrip TraceProofs FrameProofs SafetyProofs CTieBase CTieLang CTiePhrase CTiePhraseEv CTieSplit CTieApi CTieDecode CTieEncode CTieLocals CTieInject CTieCmp CTieSearch CTieClosed CodeTheorems CodeMachine.
+From PS Require Import Base GFDefs PackDefs StoreDefs MiscDefs StrDefs LangDefs ApiDefs SpecDefs SpecApi GFProofs PackProofs StoreProofs RefineProofs RoundTrip TraceProofs FrameProofs SafetyProofs CTieBase CTieLang CTiePhrase CTiePhraseEv CTieSplit CTieApi CTieDecode CTieEncode CTieLocals CTieInject CTieCmp CTieSearch CTieClosed CodeTheorems HeldProofs CodeMachine.
 From PS.Gen Require Import Consts PrivConsts Langs.
 From PS.Gen Require CFuns.
 From PS.Gen Require CApi.
